@@ -37,7 +37,7 @@ def cases(tier: str, seed: int) -> List[Dict[str, Any]]:
     from models.ops import OPS as _OPS, default_cfg as _dc
 
     for name, op in _OPS.items():
-        for env in ("default_dtype=float64", "default_dtype=bfloat16", "default_dtype=float16"):
+        for env in ("default_dtype=float64", "default_dtype=bfloat16", "default_dtype=float16", "noncontiguous", "expanded_batch"):
             for dt in ("float64", "float32"):
                 out.append({"kind": "probe", "op": name, "cfg": dict(_dc(op), dtype=dt), "seed": seed, "env": env})
     # call HISTORIES: the same op / factor used with several dtypes in sequence inside one process
